@@ -268,7 +268,7 @@ followed by an indentation run; nothing at all in front of `;`), trailing whites
 /-- SPACING NORMAL FORM. For every well-formed file of the fragment without `assert` and with at
     most one blank line between the colon of a lambda and its body (`File.basic`: containers,
     parentheses, function calls, `with e; body`, select `e.a.b`, `or default`, lambda `x: body`, unary and
-    binary operators, any nesting — the spacing proof has not been extended to `assert e; body`, whose
+    binary operators, `if c then a else b`, has-attr `e ? a.b`, any nesting — the spacing proof has not been extended to `assert e; body`, whose
     trailing trivia are written between its `;` and its body; no counterexample is known there, the
     decidable conclusion is evaluated on every sample of every run; the lambda clause is needed:
     `cex_blank_lines_after_colon`) in which no one-line container holds
@@ -505,6 +505,19 @@ example : fragSample.flatten = "# h\n\n\n{\n\ta /* n */  =\n\n      [ 1\t] ; # e
 example : fragSample.wf = true ∧ fragSample.noLeadingWs = true ∧ fragSample.basic = true := by decide
 example : (match fragSample.parse with | .ok s => s.beforeFlatB | _ => false) = true := by decide
 example : fragSample.roundtrip = .ok "# h\n\n{\n  a =\n      /* n */\n\n      [ 1 ]; # e\n\n  # o\n\n}\n\n".toList := by decide
+
+/-- `if a  ?⏎ b.c⏎⏎⏎then⏎  [ x ]⏎else { }`: `if` and has-attr are inside the spacing theorem -/
+def ifNfSample : File :=
+  { items := .elem []
+      (.ite [] " ".toList (.has (.leaf .ident "a".toList) [] "  ".toList [] "\n ".toList ["b".toList, "c".toList])
+        [] "\n\n\n".toList [] "\n  ".toList (.list (.elem " ".toList (.leaf .ident "x".toList) .nil) " ".toList)
+        [] "\n".toList [] " ".toList (.set false [] .nil " ".toList)) .nil,
+    endGap := [] }
+
+example : ifNfSample.flatten = "if a  ?\n b.c\n\n\nthen\n  [ x ]\nelse { }".toList := by decide
+example : ifNfSample.wf = true ∧ ifNfSample.noLeadingWs = true ∧ ifNfSample.basic = true := by decide
+example : (match ifNfSample.parse with | .ok s => s.beforeFlatB | _ => false) = true := by decide
+example : ifNfSample.roundtrip = .ok "if a ?\n b.c\n\nthen\n  [ x ]\nelse { }".toList := by decide
 
 end Fragment
 
